@@ -795,3 +795,58 @@ def d5_13(ctx):
     for st, visible in ((0x80FF, False), (0x8100, True), (0x8EFF, True), (0x8F00, False)):
         run(f"range boundary {st & 0xFFF:#05x}", st, ["Edge;1", "CTL", "Control", "X", ""], [rec("DINT", 0, array=0), rec("DINT", 4, array=0), rec("DINT", 8, array=0)], 12,
             {"name": "Edge", "attributes": ["CTL", "Control", "X"] if visible else ["X"]})
+
+
+# paths of the reference tree that cannot be taken, one line of reason each; keyed by function and the source of the test, so a
+# rewritten (e.g. negated) test no longer matches and its arms are both considered
+MEMO_INFEASIBLE_EDGES = {
+    ("_get_data_type", "not template.get('error')", False): "_get_structure_makeup raises ResponseError for a failed reply, so it never returns a template carrying 'error'",
+}
+
+
+@rule(P, "D5.14", "T-DOM", floor=2)
+def d5_14(ctx):
+    """Memoised definition lookups (`if key not in cache: ... cache[key] = value` followed by `return cache[key]`): every path
+    that reaches the return passes either the key-is-present edge of the membership test or a completed store of that key;
+    otherwise the return raises KeyError for a structure the controller does define."""
+    lx = _lx(ctx)
+    n_sites = 0
+    for mname, fn in sorted(lx.methods.items()):
+        for ret in [n for n in walk(fn) if isinstance(n, ast.Return) and isinstance(n.value, ast.Subscript) and isinstance(n.value.slice, ast.Name)]:
+            C, k = src(ret.value.value), ret.value.slice.id
+            stores = [s for s in walk(fn) if isinstance(s, ast.Assign) and any(isinstance(t, ast.Subscript) and src(t.value) == C and src(t.slice) == k for t in s.targets)]
+            tests = [t for t in walk(fn) if isinstance(t, ast.Compare) and len(t.ops) == 1 and isinstance(t.ops[0], (ast.In, ast.NotIn)) and src(t.left) == k and src(t.comparators[0]) == C]
+            if not stores and not tests:
+                continue
+            n_sites += 1
+            if not stores:
+                ctx.violation(ckey(lx.key + "." + mname, f"memo:{C}[{k}]"), ret, f"`return {C}[{k}]` follows a membership test of the key but nothing stores `{C}[{k}]`: KeyError for every definition not yet cached")
+                continue
+            g = ctx.cfg(fn)
+            req = {nd for s in stores for nd in g.nodes_of(s)}
+            rets = set(g.nodes_of(ret))
+
+            def present_edge(a, b, lab, _fn=mname, _C=C, _k=k):
+                t = a.ast if hasattr(a, "ast") else getattr(a, "astnode", None)
+                if t is None or lab not in (True, False):
+                    return False
+                if (_fn, src(t), lab) in MEMO_INFEASIBLE_EDGES:
+                    return True
+                neg = False
+                while isinstance(t, ast.UnaryOp) and isinstance(t.op, ast.Not):
+                    t, neg = t.operand, not neg
+                if isinstance(t, ast.Compare) and len(t.ops) == 1 and isinstance(t.ops[0], (ast.In, ast.NotIn)) and src(t.left) == _k and src(t.comparators[0]) == _C:
+                    present_when = isinstance(t.ops[0], ast.In) != neg
+                    return lab == present_when
+                return False
+
+            path = g.must_pass(req, sinks=rets, avoid_edges=present_edge)
+            key = ckey(lx.key + "." + mname, f"memo:{C}[{k}]")
+            if path is None:
+                ctx.ok(key, ret, f"`return {C}[{k}]` is reached only with the key present or just stored")
+            else:
+                lines = [getattr(nd, "lineno", None) for nd in path]
+                lines = [x() if callable(x) else x for x in lines]
+                ctx.violation(key, ret, f"`return {C}[{k}]` is reachable without the key being present or stored (path through lines {[x for x in lines if x][:12]}): KeyError for a definition the controller has")
+    if n_sites == 0:
+        ctx.undecided(ckey(lx.key, "memo"), lx.node, "no memoised lookup found (the definition caches are expected in _get_data_type / _get_structure_makeup)")
